@@ -3,6 +3,8 @@ package eval
 import (
 	"errors"
 	"fmt"
+	"maps"
+	"slices"
 
 	"github.com/cedar-policy/cedar-go/internal/consts"
 	"github.com/cedar-policy/cedar-go/internal/extensions"
@@ -734,9 +736,13 @@ func newRecordLiteralEval(elements map[types.String]Evaler) *recordLiteralEval {
 }
 
 func (n *recordLiteralEval) Eval(env Env) (types.Value, error) {
-	vals := types.RecordMap{}
-	for k, en := range n.elements {
-		v, err := en.Eval(env)
+	// Evaluate the attributes in key order so that, when several of them fail,
+	// the reported error does not depend on Go's map iteration order.
+	keys := slices.Collect(maps.Keys(n.elements))
+	slices.Sort(keys)
+	vals := make(types.RecordMap, len(keys))
+	for _, k := range keys {
+		v, err := n.elements[k].Eval(env)
 		if err != nil {
 			return zeroValue(), err
 		}
